@@ -35,6 +35,12 @@ class _Subst(ast.NodeTransformer):
 
 def _value(e, env, atom_of, asg):
     """Value of e, or the expression itself (symbolic) when it is not a boolean/int/list combination of atoms."""
+    if getattr(atom_of, "auto", False) and isinstance(e, (ast.Attribute, ast.Subscript)):
+        # (discovered atoms: a bare operand in element position stays symbolic; it becomes a leaf test only where
+        # it is used as a condition)
+        return AstVal(_Subst(env).visit(_clone(e)))
+    if getattr(atom_of, "auto", False) and isinstance(e, ast.Name) and isinstance(env.get(e.id), AstVal):
+        return env[e.id]
     try:
         return _eval(e, env, atom_of, asg)
     except Unknown:
@@ -42,15 +48,18 @@ def _value(e, env, atom_of, asg):
 
 
 def _eval(e, env, atom_of, asg):
-    k = atom_of(e)
-    if k is None and any(isinstance(v, AstVal) for v in env.values()):
-        k = atom_of(_Subst(env).visit(_clone(e)))
+    if any(isinstance(v, AstVal) for v in env.values()) and any(isinstance(x, ast.Name) and isinstance(env.get(x.id), AstVal) for x in ast.walk(e)):
+        k = atom_of(_Subst(env).visit(_clone(e)))  # (symbolic operands substituted first: the atom is about them)
+    else:
+        k = atom_of(e)
     if k is not None:
         return asg[k]
     if isinstance(e, ast.Constant) and isinstance(e.value, (bool, int)):
         return e.value
     if isinstance(e, ast.Name) and e.id in env:
         if isinstance(env[e.id], AstVal):
+            if getattr(atom_of, "auto", False):
+                return _eval(env[e.id].expr, {}, atom_of, asg)  # a symbolic operand used as a condition
             raise Unknown(ast.unparse(e))
         return env[e.id]
     if isinstance(e, ast.BoolOp):
@@ -181,3 +190,50 @@ def truth_table(fn_node, atoms, atom_of):
             r = rr.v
         out[vals] = bool(r)
     return out
+
+
+NOT_LEAVES = (ast.BoolOp, ast.UnaryOp, ast.IfExp, ast.Constant, ast.List, ast.Tuple, ast.GeneratorExp, ast.ListComp, ast.Name, ast.NamedExpr)
+STRUCTURAL_CALLS = ("any", "all", "bool", "len", "tuple", "list")
+
+
+def truth_table_auto(fn_node, max_atoms=10):
+    """(atoms, {assignment tuple: returned boolean}) where the atoms are discovered: every sub-expression that is
+    not boolean structure (and/or/not, conditional expressions, any/all over literal sequences, locals) is a leaf
+    test, named by its text after substitution of symbolic operands.  Raises Unknown when the function is not a
+    boolean combination of such leaves, or has more than max_atoms of them."""
+    atoms = []
+    for _round in range(max_atoms + 2):
+        new = []
+
+        def atom_of(e):
+            if isinstance(e, NOT_LEAVES):
+                return None
+            if isinstance(e, ast.Call) and isinstance(e.func, ast.Name) and e.func.id in STRUCTURAL_CALLS:
+                return None
+            if isinstance(e, ast.Compare) and len(e.ops) == 1 and any(isinstance(x, ast.Call) and isinstance(x.func, ast.Name) and x.func.id == "len" for x in (e.left, e.comparators[0])) \
+                    and any(isinstance(x, ast.Constant) for x in (e.left, e.comparators[0])):
+                return None  # a length compared with a constant is structure, not a leaf
+            k = ast.unparse(e).replace(" ", "")
+            if k in atoms:
+                return k
+            if k not in new:
+                new.append(k)
+            return "*new*"
+
+        atom_of.auto = True
+        out = {}
+        for vals in itertools.product([False, True], repeat=len(atoms)):
+            asg = dict(zip(atoms, vals))
+            asg["*new*"] = False
+            try:
+                _run(fn_node.body, {}, atom_of, asg)
+                r = None
+            except _Return as rr:
+                r = rr.v
+            out[vals] = bool(r)
+        if not new:
+            return atoms, out
+        atoms += new
+        if len(atoms) > max_atoms:
+            raise Unknown("more than %d leaf tests" % max_atoms)
+    raise Unknown("leaf discovery did not converge")
